@@ -64,7 +64,7 @@ PROPS = {
             "count followed by exactly that many members, read back by the receiver loop": "theorem (full for lawful codecs): section_reads_back",
             "Feed lists only active members other than the receiver": "theorem (full): feed_candidates; 'other than the sender' follows from own-address-never-active (C09/C19 theorems)",
             "custom items length-prefixed": "theorem: custom_item_framing",
-            "peer accepts without Decode/Malformed error": "theorem (full, whole histories): C07H.peer_accepts_every_datagram (Props/C07S.lean) — in any history with wire-range inputs (C07H/WireInv: WireHistory, InputWire: what any u16-typed codec decodes; identities within the type's range), every datagram any call hands to the runtime, delivered to a peer with the same codec (reading back the members and headers it wrote), the same packet size (at most 65535), another address, and addressed to it, is never answered with DataTooBig, Decode or MalformedPacket: C07H.every_datagram_has_the_shape (header; or header ++ count ++ that many encoded wire-range members ++ length-prefixed non-empty items; or, Broadcast, header ++ items — and nothing else), C07H.shaped_datagram_is_read_back (handle_data on it is processParsed on exactly these members and items), C07H.processParsed_never_rejects. Layers: Proofs/WireInv.lean (everything held stays within the wire range; renew wraps at u16 like the identity type), Proofs/Shape.lean (sendMessage_shape: member section, custom tail, by the fill and Feed-loop lemmas), Proofs/ComposeE.lean (generic effect-aware composition with side conditions, generated from Compose.lean), Proofs/SentInv.lean (Sent = wire range ∧ items never empty ∧ every datagram emitted so far has the shape), Proofs/ErrKinds.lean (which errors the processing path can end with); byte-level read-back: C07H.wellformed_datagram_is_read_back, broadcast_datagram_is_read_back, bare_datagram_is_read_back, custom_tail_is_delivered, section_parses_back",
+            "peer accepts without Decode/Malformed error": "theorem (full, whole histories): C07H.peer_accepts_every_datagram (Props/C07S.lean) — in any history with wire-range inputs (C07H/WireInv: WireHistory, InputWire: what any u16-typed codec decodes; identities within the type's range), every datagram any call hands to the runtime, delivered to a peer with the same codec (CodecLaws + HeaderLaw: it reads back the wire-range members and headers it wrote — proven for the models of the fixed, postcard, bincode and packed codecs: C07H.bundled_codec_laws, C07H.bundled_header_laws; every header foca builds is shown wire-range, HWire), the same packet size (at most 65535), another address, and addressed to it, is never answered with DataTooBig, Decode or MalformedPacket: C07H.every_datagram_has_the_shape (header; or header ++ count ++ that many encoded wire-range members ++ length-prefixed non-empty items; or, Broadcast, header ++ items — and nothing else), C07H.shaped_datagram_is_read_back (handle_data on it is processParsed on exactly these members and items), C07H.processParsed_never_rejects. Layers: Proofs/WireInv.lean (everything held stays within the wire range; renew wraps at u16 like the identity type), Proofs/Shape.lean (sendMessage_shape: member section, custom tail, by the fill and Feed-loop lemmas), Proofs/ComposeE.lean (generic effect-aware composition with side conditions, generated from Compose.lean), Proofs/SentInv.lean (Sent = wire range ∧ items never empty ∧ every datagram emitted so far has the shape), Proofs/ErrKinds.lean (which errors the processing path can end with); byte-level read-back: C07H.wellformed_datagram_is_read_back, broadcast_datagram_is_read_back, bare_datagram_is_read_back, custom_tail_is_delivered, section_parses_back",
         },
         RULE_HIST + "search: every datagram of every generated history is parsed by an independent grammar parser (written against the doc comment of Header) and fed to a fresh real peer instance with the same codec and packet size; packet sizes swept from just-fits-a-header upwards, all three codecs.",
         ["Codec contract: decode(encode(x) ++ rest) = (x, rest) for u16-range values (proved for the three codecs in C20)"],
@@ -103,6 +103,7 @@ PROPS = {
             "Down about self: Defunct unless a differing, winning renewed identity exists": "theorem (full): no_rejoin_without_winning_identity, down_without_renewal_is_defunct, bump_renews_to_a_winner",
             "incarnation never decreases while an identity is in use (whole histories)": "theorem (full, any history of public calls without change_identity/reuse_down_identity, any inputs and RNG; from any state): C10H.incarnation_never_decreases_step, C10H.same_identity_incarnation_monotone, C10H.incarnation_monotone_over_histories (invariant IncInv through every model function, Proofs/IncInv.lean)",
             "never fabricates incarnations of others": "theorem (full, whole histories, any codec): C10H.nothing_fabricated_step, C10H.nothing_fabricated_over_histories — every member record, the probe target and every pending update (the bytes of an encoded member) stay within the incarnations the inputs carried (invariant TellInv, Proofs/TellInv.lean); that a datagram's member section is made of backlog entries (C15) or listed active members (C07.feed_candidates) ties this to what is sent",
+            "nothing is fabricated anywhere in the cluster": "theorem (full, cluster level: any number of instances, datagrams delivered late, repeatedly, to the wrong instance or never, timers in any order, API calls at any time except apply_many, any RNG draws; codec reads back the wire-range headers and members it wrote — proven for the four codec models, instantiated for postcard): C10S.nothing_fabricated_in_the_cluster — every member record, probe target and pending update of every instance is about an identity x at an incarnation at most toldBy sent x, the highest incarnation x itself put into the header of a datagram it sent; C10S.nothing_fabricated_on_the_wire (the same for whatever a receiver will parse out of any datagram in flight), C10S.announced_incarnations_are_real (the log holds only headers of datagrams really handed to a runtime). Model: FocaModel/Net.lean (nodes, wire, timers, ghost log); Proofs/NetInv.lean (NetReach, NetInv, shape_dataOk: what is parsed out of a datagram of the documented shape are members the sender wrote, decodeMembers_take), on top of Proofs/SentInv.lean with the bound τ of WireInv",
             "rejoin gossips Down(old)": "theorem per call: C05.told_down_renews_identity, C18 / C10 lemmas on change_identity (the Down update about the previous identity is enqueued before the gossip); over histories: search and correspondence",
         },
         RULE_HIST + "search: per-call oracle over the boundary incarnations 0/1/65534/65535, suspicions older/equal/newer than own, all four renew policies (none, bump, same, lose).",
